@@ -93,6 +93,23 @@ def o_history(inp):
     st = inp.get("start", "as-built")
     if st == "both":
         s.refresh()
+    # "converting loses no event and no duration": what was put in is what both views show, every field included
+    # (a payload value 0 is a legal control / program number)
+    if init[0] in ("abs", "rel"):
+        put, dput = (abs_timed if init[0] == "abs" else rel_timed)(init[1])
+        strip = lambda lst: sorted((t,) + tuple(-1 if x is None else x for x in (m[0], m[1]) + tuple(m[3:])) for t, m in lst)  # noqa
+        try:
+            c = s.copy()
+            ga, da = abs_timed([from_real(m) for m in c.abs._messages])
+            gr, dr = rel_timed([from_real(m) for m in c.rel._messages])
+        except Exception as e:
+            return [("unreadable", f"reading the freshly built sequence raised {type(e).__name__}: {e}")]
+        for nm, got in (("absolute", ga), ("relative", gr)):
+            if strip(got) != strip(put):
+                lost = [x for x in strip(put) if x not in strip(got)]
+                return [("lossless", f"the {nm} view of the freshly built sequence does not show the events put in: missing/changed {lost[:4]}")]
+        if dr != dput and init[1]:
+            return [("lossless", f"duration put in {dput}, relative view shows {dr}")]
     for i, op in enumerate(ops):
         op = _norm_op(op)
         try:
